@@ -68,29 +68,33 @@ func main() {
 	cov := ev.Coverage{
 		"evaluations":         st.runs + rt.runs,
 		"distinct_nontrivial": st.faultsFired + rt.runsWithFailure,
-		"rule": fmt.Sprintf("stores: every history of <=%d ops over {Create(k), Write1/Write2(w), Commit(w), Discard(w), Open(k,off in {0,1,len-1,len,len+1}), Stat(k), Discard(k)} on 2 keys x %d key configurations, ops enabled by the model state, on memoryStore and on fileStore over vfs://; each fileStore history re-run once per (file-operation label of its fault-free run) x (fail | failpartial for Write | crash); a fault run is non-trivial when the armed label fired. "+
-			"retryReader: DFS over all opener scripts over {D1,D2,D3,F,P1,P2,P3,O} up to length budget+2=%d (deliveries larger than the read buffer are omitted as duplicates; extensions of scripts whose tail is never consumed are pruned as equivalent), x {recovery, no recovery} x {EOF separate, EOF with last bytes} x read-buffer sizes; non-trivial = at least one scripted failure was consumed",
-			depth, len(keyConfigs), rt.maxLen),
+		"rule": fmt.Sprintf("stores: every history of <=%d ops over {Create(k), Write1/Write2(w), Commit(w), Discard(w), Open(k,off in {0,1,len-1,len,len+1}), Stat(k), Discard(k)} on 2 keys x %d key configurations, ops enabled by the model state, on memoryStore and on fileStore over vfs://; each fileStore history re-run once per (file-operation label of its fault-free run) x (fail | failpartial for Write | crash); a fault run is non-trivial when the armed label fired. re-commit histories: every sequence over {WC(k,1..3) = Create+Write of 3/5/6 bytes+Commit, Open(k,0), Open(k,1), Stat(k), DiscardEntry(k)} up to the depths listed under recommit_plans, on one and on two keys, both stores, with the same single-fault sweep where the plan says sweep=true. "+
+			"retryReader: DFS over all opener scripts over {D1,D2,D3,F,P1,P2,P3,O} up to length budget+2=%d (deliveries larger than the read buffer are omitted as duplicates; extensions of scripts whose tail is never consumed are pruned as equivalent), x {after the script: recover | open-fails; and, for scripts up to length %d, read-fails-0 | read-returns-1-byte-and-error | deliver-1-then-fail} x {EOF separate, EOF with last bytes} x read-buffer sizes; non-trivial = at least one scripted failure was consumed",
+			depth, len(keyConfigs), rt.maxLen, rt.extraTailMaxLen),
 		"stores": map[string]interface{}{
-			"depth":                         depth,
-			"histories_memoryStore":         st.histories["memoryStore"],
-			"histories_fileStore":           st.histories["fileStore"],
-			"fault_runs":                    st.faultRuns,
-			"fault_runs_where_label_fired":  st.faultsFired,
-			"fault_runs_by_mode":            st.byMode,
-			"fault_points_by_fsop_in_op":    st.faultPoints.Keys(),
-			"distinct_op_outcomes":          st.outcomes.Distinct(),
-			"op_outcomes":                   st.outcomes.Keys(),
-			"distinct_model_states":         st.states.Distinct(),
-			"ops_skipped_writer_missing":    st.skipped,
-			"writes_failed_without_a_fault": st.taintedNoFault,
-			"violating_runs":                st.violRuns,
+			"depth":                          depth,
+			"histories_memoryStore":          st.histories["memoryStore"],
+			"histories_fileStore":            st.histories["fileStore"],
+			"histories_recommit_memoryStore": st.histories["memoryStore/recommit"],
+			"histories_recommit_fileStore":   st.histories["fileStore/recommit"],
+			"recommit_plans":                 st.recommit,
+			"fault_runs":                     st.faultRuns,
+			"fault_runs_where_label_fired":   st.faultsFired,
+			"fault_runs_by_mode":             st.byMode,
+			"fault_points_by_fsop_in_op":     st.faultPoints.Keys(),
+			"distinct_op_outcomes":           st.outcomes.Distinct(),
+			"op_outcomes":                    st.outcomes.Keys(),
+			"distinct_model_states":          st.states.Distinct(),
+			"ops_skipped_writer_missing":     st.skipped,
+			"writes_failed_without_a_fault":  st.taintedNoFault,
+			"violating_runs":                 st.violRuns,
 		},
 		"retry_reader": map[string]interface{}{
 			"budget_from_policy_object":       rt.budget,
 			"scripts":                         rt.scripts,
 			"scripts_pruned_tail_unconsumed":  rt.pruned,
 			"runs":                            rt.runs,
+			"runs_by_tail":                    tailCounts(rt),
 			"runs_with_consumed_failure":      rt.runsWithFailure,
 			"runs_ending_in_error":            rt.errRuns,
 			"error_runs_with_consecutive>=B":  rt.errRunsConsecutive,
@@ -108,4 +112,12 @@ func main() {
 		"file system = verifh/vfs: a failed Close publishes nothing, an open file reads the content committed when it was opened, no artificial short reads",
 		"retryPolicy replaced by a wrapper around the REAL policy object that keeps its keep-going decision and zeroes the delay")
 	r.Finish(cov)
+}
+
+func tailCounts(rt *retryStats) map[string]int64 {
+	m := map[string]int64{}
+	for i, n := range rt.byTail {
+		m[tailName[i]] = n
+	}
+	return m
 }
